@@ -24,6 +24,16 @@ func (ft *FT) globalInit(name, c, sort string) {
 	}
 	t, ok := g.globalInitTerm(strings.TrimPrefix(name, "G|"), map[string]bool{})
 	if !ok {
+		// var re = regexp.MustCompile(<constant pattern>): the variable is a non-nil compiled expression of exactly
+		// that pattern (the contract of regexp.MustCompile in contracts/regexp.spec, applied to the initialiser; a pattern
+		// that does not compile panics during package initialisation, before any function under contract runs)
+		if pat, ok := g.globalInitRegexp(strings.TrimPrefix(name, "G|")); ok && sort == "Int" {
+			if sf, ok := g.db.Funcs["rePat"]; ok {
+				g.declareSpecFunc(sf)
+				ft.fact("(and (not (= " + c + " 0)) (= (sf_rePat " + c + ") " + pat + "))")
+				ft.assumed["package-level *regexp.Regexp variables that no function assigns are the compiled form of the constant pattern in their initialiser (regexp.MustCompile contract, E-std)"] = true
+			}
+		}
 		return
 	}
 	ft.fact("(= " + c + " " + t + ")")
@@ -69,6 +79,165 @@ func (g *Gen) globalInitTerm(full string, busy map[string]bool) (string, bool) {
 						return "", false
 					}
 					return g.initExpr(p.TypesInfo, vs.Values[k], obj.Type(), busy)
+				}
+			}
+		}
+	}
+	return "", false
+}
+
+// globalInitRegexp: the constant pattern p when the package-level variable "pkgpath.Name" of the repository is declared
+// as `var Name = regexp.MustCompile(p)` and assigned nowhere else.
+func (g *Gen) globalInitRegexp(full string) (string, bool) {
+	i := strings.LastIndex(full, ".")
+	if i < 0 {
+		return "", false
+	}
+	pkgPath, vname := full[:i], full[i+1:]
+	if !strings.HasPrefix(pkgPath, repoPrefix) || g.writtenGlobals()["G|"+full] {
+		return "", false
+	}
+	p := g.allPkgs[pkgPath]
+	if p == nil || p.TypesInfo == nil {
+		return "", false
+	}
+	for _, f := range p.Syntax {
+		for _, d := range f.Decls {
+			gd, ok := d.(*ast.GenDecl)
+			if !ok {
+				continue
+			}
+			for _, sp := range gd.Specs {
+				vs, ok := sp.(*ast.ValueSpec)
+				if !ok || len(vs.Values) != len(vs.Names) {
+					continue
+				}
+				for k, id := range vs.Names {
+					if id.Name != vname {
+						continue
+					}
+					call, ok := ast.Unparen(vs.Values[k]).(*ast.CallExpr)
+					if !ok || len(call.Args) != 1 {
+						return "", false
+					}
+					sel, ok := call.Fun.(*ast.SelectorExpr)
+					if !ok {
+						return "", false
+					}
+					fn, _ := p.TypesInfo.Uses[sel.Sel].(*types.Func)
+					if fn == nil || fn.Pkg() == nil || fn.Pkg().Path() != "regexp" || fn.Name() != "MustCompile" {
+						return "", false
+					}
+					return g.foldStr(p.TypesInfo, call.Args[0], 0)
+				}
+			}
+		}
+	}
+	return "", false
+}
+
+// foldStr evaluates a string expression of a package initialiser to an SMT term when it is built from constants,
+// `+`, fmt.Sprintf with a constant format of literal text and %s / %v verbs (the term has the shape the fmt.Sprintf
+// contract in contracts/std.spec gives: pieces concatenated left to right), and calls of parameterless repository
+// functions whose body is a single return of such an expression. Anything else: not evaluated.
+func (g *Gen) foldStr(info *types.Info, e ast.Expr, depth int) (string, bool) {
+	if depth > 6 {
+		return "", false
+	}
+	e = ast.Unparen(e)
+	if tv, ok := info.Types[e]; ok && tv.Value != nil {
+		if tv.Value.Kind() != constant.String {
+			return "", false
+		}
+		return g.strLit(constant.StringVal(tv.Value)), true
+	}
+	switch x := e.(type) {
+	case *ast.BinaryExpr:
+		if x.Op.String() != "+" {
+			return "", false
+		}
+		a, ok1 := g.foldStr(info, x.X, depth+1)
+		b, ok2 := g.foldStr(info, x.Y, depth+1)
+		if !ok1 || !ok2 {
+			return "", false
+		}
+		return "(cat_Str " + a + " " + b + ")", true
+	case *ast.CallExpr:
+		var fn *types.Func
+		switch f := x.Fun.(type) {
+		case *ast.Ident:
+			fn, _ = info.Uses[f].(*types.Func)
+		case *ast.SelectorExpr:
+			fn, _ = info.Uses[f.Sel].(*types.Func)
+		}
+		if fn == nil || fn.Pkg() == nil {
+			return "", false
+		}
+		if fn.Pkg().Path() == "fmt" && fn.Name() == "Sprintf" && len(x.Args) >= 1 {
+			tv, ok := info.Types[x.Args[0]]
+			if !ok || tv.Value == nil || tv.Value.Kind() != constant.String {
+				return "", false
+			}
+			format := constant.StringVal(tv.Value)
+			var pieces []string
+			rest, argi := format, 1
+			for {
+				i := strings.Index(rest, "%")
+				if i < 0 {
+					break
+				}
+				if i+1 >= len(rest) || (rest[i+1] != 's' && rest[i+1] != 'v') || argi >= len(x.Args) {
+					return "", false
+				}
+				at, ok := info.Types[x.Args[argi]]
+				if !ok || !types.Identical(at.Type.Underlying(), types.Typ[types.String]) {
+					return "", false
+				}
+				a, ok := g.foldStr(info, x.Args[argi], depth+1)
+				if !ok {
+					return "", false
+				}
+				if i > 0 {
+					pieces = append(pieces, g.strLit(rest[:i]))
+				}
+				pieces = append(pieces, a)
+				rest = rest[i+2:]
+				argi++
+			}
+			if argi != len(x.Args) {
+				return "", false
+			}
+			if rest != "" {
+				pieces = append(pieces, g.strLit(rest))
+			}
+			if len(pieces) == 0 {
+				return "emptystr", true
+			}
+			t := pieces[0]
+			for _, q := range pieces[1:] {
+				t = "(cat_Str " + t + " " + q + ")"
+			}
+			return t, true
+		}
+		if len(x.Args) == 0 && strings.HasPrefix(fn.Pkg().Path(), repoPrefix) && fn.Type().(*types.Signature).Recv() == nil {
+			p := g.allPkgs[fn.Pkg().Path()]
+			if p == nil || p.TypesInfo == nil {
+				return "", false
+			}
+			for _, f := range p.Syntax {
+				for _, d := range f.Decls {
+					fd, ok := d.(*ast.FuncDecl)
+					if !ok || fd.Recv != nil || fd.Body == nil || p.TypesInfo.Defs[fd.Name] != fn {
+						continue
+					}
+					if len(fd.Body.List) != 1 {
+						return "", false
+					}
+					rs, ok := fd.Body.List[0].(*ast.ReturnStmt)
+					if !ok || len(rs.Results) != 1 {
+						return "", false
+					}
+					return g.foldStr(p.TypesInfo, rs.Results[0], depth+1)
 				}
 			}
 		}
